@@ -12,7 +12,7 @@ ASSUMPTIONS = [
     'basis_function_ders(_one) are called with order <= degree (their documented contract); the single-function derivative variant is compared for parameters before the domain end',
 ]
 OUTSIDE = ['degrees > 5 (quick) / 7 (thorough); derivative variants: degrees > 5 and degree 5 with more than one interior knot', 'more than 3 distinct interior knots', 'symbolic knots for degree > 3']
-BOUNDS = {'quick': 'p=1..5, KQ patterns + unclamped; symbolic knots p<=2; generate p=1..7 n<=p+8; generate after an earlier result was edited in place',
+BOUNDS = {'quick': 'p=1..5, KQ patterns + unclamped; symbolic knots p<=2; generate p=1..7 n<=p+8; generate after an earlier result was edited in place; knot vectors times a symbolic factor at helper level',
           'thorough': 'p=1..7, all patterns <=3 interior knots (p<=4) / <=2 (p>=5); symbolic knots p<=3'}
 
 
